@@ -427,6 +427,9 @@ def run_substitutions(ctx):
 
 
 def run_shard(ctx):
+    if ctx.thorough:
+        from vf import fuzz
+        fuzz.run(ctx, ID, 90, FUZZ_SEEDS)
     run_substitutions(ctx)
     run_valid(ctx, ctx.n(30000, 1000000))
     run_corrupt(ctx, ctx.n(30000, 1500000))
@@ -438,3 +441,18 @@ def replay(case):
     if mode not in EDGES:
         return []
     return judge(unhex(case['data']), sizes, mode)
+
+
+# -- coverage-guided tier (atheris) ---------------------------------------------------------------------
+
+def fuzz_target(data):
+    if len(data) < 3:
+        return None, []
+    mode = ('v1', 'v2', 'auto')[data[0] % 3]
+    nsizes = data[1] % 5
+    sizes = [max(1, s % 20) for s in data[2:2 + nsizes]] or [1 << 20]
+    payload = data[2 + nsizes:]
+    return case_json(payload, sizes, mode), judge(payload, sizes, mode)
+
+
+FUZZ_SEEDS = [b'\x00\x00' + h for _, h in SAMPLE_HEADERS] + [b'\x02\x02\x03\x01' + h + b'EHLO' for _, h in SAMPLE_HEADERS]
